@@ -41,3 +41,13 @@ Fixpoint register_all (s : sreg) (rs : list reg_req) : sreg * list reg_out :=
     | (s', o) => let (s2, outs) := register_all s' rest in (s2, o :: outs)
     end
   end.
+
+(* SetComponents refused the component set: some registration panicked *)
+Definition is_panic (o : reg_out) : bool := match o with RegPanic => true | _ => false end.
+Definition refused_from (s : sreg) (rs : list reg_req) : bool := existsb is_panic (snd (register_all s rs)).
+Definition refused (rs : list reg_req) : bool := refused_from [] rs.
+
+(* two requests announce one name for two different instances (decided on the requests alone) *)
+Definition clash (a b : reg_req) : bool :=
+  Nat.eqb (reg_name a) (reg_name b) && negb (Nat.eqb (rq_inst a) (rq_inst b)).
+Definition has_clash (rs : list reg_req) : bool := existsb (fun a => existsb (clash a) rs) rs.
